@@ -8,6 +8,7 @@
 (* [k, a, b]; for a dual object it is its RAW hash.                        *)
 (***************************************************************************)
 EXTENDS ParserMachine, Order, Word32, TraceBase, FiniteSets
+Msg == INSTANCE Messages
 CONSTANT STRICT            \* the build under test uses the strict parser
 VARIABLES l, slots
 vars == <<l, slots>>
@@ -42,6 +43,9 @@ ParseOk(T, r, t) ==
        (* the implementation-shaped parser machine also predicts the error kind and offset *)
        /\ LET m == PParse(Kind(T), STRICT, t) IN
           Drift(~m.ok /\ m.origin = p.origin /\ r.kind = m.kind /\ r.off = m.off, <<"parse-error-kind-offset", T, t, m>>)
+       (* and the displayed text is the one built from the predicted kind, origin and offset *)
+       /\ LET m == PParse(Kind(T), STRICT, t) IN
+          Drift(m.ok \/ r.msg = Msg!ParseErrorMsg(m.kind, m.origin, m.off), <<"parse-error-message", T, t>>)
 EvParse == /\ Ev("parse")
            /\ \A T \in Types :
                 Expect(T \in DOMAIN E.r /\ ParseOk(T, E.r[T], E.t), <<l, "parse", T, Parse(Kind(T), STRICT, E.t)>>)
@@ -99,6 +103,15 @@ EvOrd == /\ Ev("ord")
             /\ Expect(E.cmp = c /\ E.pcmp = c /\ E.rcmp = -c, <<l, "ord-cmp", c>>)
             /\ Expect((A = B) => (E.hasheq = TRUE /\ E.dhasheq = TRUE), <<l, "ord-hash">>)
             /\ Expect(E.cbs = Sign(A.k - B.k), <<l, "ord-by-block-size">>)
+            (* the block size relation between two hash objects, and the array-level observers
+               (outside C16: reported as drift, not as a verdict) *)
+            /\ LET r == IF A.k = B.k THEN "NearEq" ELSE IF A.k + 1 = B.k THEN "NearLt"
+                        ELSE IF A.k = B.k + 1 THEN "NearGt" ELSE "Far" IN
+               Drift(E.rel = r /\ E.near = <<r # "Far", r = "NearEq", r = "NearLt", r = "NearGt">>, <<l, "ord-block-size-relation", r>>)
+            /\ Drift(/\ E.len1 = Len(A.a) /\ E.len2 = Len(A.b)
+                      /\ E.arr1 = A.a \o [i \in 1..(Len(E.arr1) - Len(A.a)) |-> 0]
+                      /\ E.arr2 = A.b \o [i \in 1..(Len(E.arr2) - Len(A.b)) |-> 0]
+                      /\ Len(E.arr1) = CAP1 /\ Len(E.arr2) = (IF IsLongT(E.T) THEN CAP2L ELSE CAP2S), <<l, "ord-array-observers">>)
          /\ Stateless
 IsPerm(x, y) == /\ Len(x) = Len(y)
                 /\ \A i \in 1..Len(x) : Cardinality({j \in 1..Len(x) : x[j] = x[i]}) = Cardinality({j \in 1..Len(y) : y[j] = x[i]})
